@@ -35,3 +35,4 @@ def verus_unit(unit, template, props, functions, **kw):
 from units_math import *   # noqa
 from units_utils import *  # noqa
 from units_air import *  # noqa
+from units_crypto import *  # noqa
